@@ -43,13 +43,14 @@ func verif39SameBits(got *bitset.BitSet, n int, want []uint64) bool {
 	return same
 }
 
-// VerifBitfieldRoundTrip: for every bit length 0..N and every assignment of
+// VerifBitfieldRoundTrip: for every bit length 0..191 | 0..575 and every assignment of
 // the bits, the bytes a handshake carries for a bitfield are accepted by
 // unmarshalBitfield and give back a bitset of the same length with the same
 // bits.
 func VerifBitfieldRoundTrip() {
 	verif.Option("panic_is_violation", 1)
-	n := verif.Len("bits", 0, verif.Bound("bitfield_bits", 130, 520))
+	// every length 0..191 | 0..575, split as whole words + remaining bits
+	n := 64*verif.Choice("whole_words", verif.Bound("bitfield_whole_words", 3, 9)) + verif.Len("rest_bits", 0, 63)
 	b, want := verif39Bitset("word", n)
 	raw, err := b.MarshalBinary()
 	verif.Assert("marshal-ok", err == nil)
@@ -105,8 +106,8 @@ func VerifBitfieldParse() {
 		// no restriction on the unchanged tree (it rejects more than 8*(l-8)
 		// declared bits); keeps a native replay against a modified tree from
 		// allocating gigabytes. Huge declared lengths are C14's subject.
-		verif.Note("declared bit lengths above 65536 are not played (allocation behaviour is C14's subject)")
-		verif.Assume(binary.BigEndian.Uint64(in) <= 1<<16)
+		verif.Note("declared bit lengths above 2^30 are not played (allocation behaviour is C14's subject)")
+		verif.Assume(binary.BigEndian.Uint64(in) <= 1<<30)
 	}
 	got, err := unmarshalBitfield(raw)
 	verif.Cover("accepted", err == nil)
